@@ -359,6 +359,9 @@ class Theory:
         elif seq.rule == "subproof":
             for s in seq.subproof.items:
                 self._check_proof_item(prf, s, rpt, no_gaps, compute_only, check_level)
+            if seq.subproof.items[-1].rule == "":
+                # An empty line is not checked, its statement cannot be used.
+                raise CheckProofException("last line of the subproof is empty")
             res_th = seq.subproof.items[-1].th
         else:
             # Otherwise, apply one of the proof methods. First, we
